@@ -9,5 +9,6 @@ if [ -z "${VERIF_SKIP_MIRI:-}" ]; then
       cargo +nightly miri run --offline -q -p checks --bin $b -- --noop >/dev/null 2>&1
     echo "miri build of $b: done"
   done
+  (cd "$ROOT/harness/san-c18" && CARGO_TARGET_DIR="$ROOT/harness/target/miri-c18" MIRIFLAGS="-Zmiri-disable-isolation" cargo +nightly miri run --offline -q -- 1 1 >/dev/null 2>&1; echo "miri build of san-c18: done")
 fi
 exit 0
